@@ -68,6 +68,9 @@ def gen_history(seed, universe, cfg):
         return "r%d" % next_r[0]
 
     def steps(rid, cid, r, debug, tag, fault_ok, raw=None):
+        if (r.get("params") or {}).get("__pipeline__") == "user":
+            return [["trace", rid, cid, r["target"], r["func"], r["sig"]], ["print", rid, 0, "bg", "raw"],
+                    ["expand", rid], ["simplify", rid], ["print", rid, debug, tag]]
         if raw is None:
             raw = r["func"].startswith("stress_") and rq.random() < 0.3
         if raw:
@@ -98,6 +101,9 @@ def gen_history(seed, universe, cfg):
             variants = [q for q in by_target[t] if q["func"] == f0]
             if variants:
                 r = rq.choice(variants)
+        rare = [q for q in by_target[t] if (q.get("params") or {}).get("__pipeline__") == "user"]
+        if rare and rq.random() < 0.04:
+            r = rq.choice(rare)  # a floor for the few requests of the user-modifier pipeline among hundreds of others
         seen_funcs.append(r["func"])
         if cfg.get("generated_programs") and rq.random() < cfg["generated_programs"]:
             r = generated_request(rq, t)
@@ -174,6 +180,10 @@ def gen_history(seed, universe, cfg):
             cid, r1, r2 = new_cid(), new_rid(), new_rid()
             acts = [["ctx", cid, t], ["trace", r1, cid, t, f["func"], f["sig"]], ["print", r1, 0, "bg", "raw"]]
             acts += steps(r2, cid, g, 0, "bg", False, False)
+            if rq.random() < 0.5:
+                # ... and the first function itself, now rewritten (top-down or not) and printed again
+                td = ["top-down"] if rq.random() < 0.6 else []
+                acts += [["expand", r1] + td, ["simplify", r1] + (td if rq.random() < 0.5 else []), ["print", r1, 0, "bg"]]
             threads.append(acts)
 
     # two requests on unrelated contexts whose prints run concurrently in two threads of this process, with the
@@ -241,7 +251,10 @@ def solo_history(req, rec):
     if ":raw" in key:
         acts.append(["print", "r0", debug, "bg", "raw"])
     else:
-        acts += [["expand", "r0"], ["simplify", "r0"], ["print", "r0", debug, "bg"]]
+        if req.get("raw_first"):
+            acts.append(["print", "r0", 0, "bg", "raw"])
+        acts += [["expand", "r0"] + (["top-down"] if req.get("topdown_expand") else []),
+                 ["simplify", "r0"] + (["top-down"] if req.get("topdown_simplify") else []), ["print", "r0", debug, "bg"]]
     if ":as=" in key:
         acts.append(["reprint", "r0", key.split(":as=")[1], rec["debug"]])
     return acts
@@ -311,6 +324,15 @@ class FaultEnv:
 
 
 # ------------------------------------------------------------------ execution
+
+
+def _ephemeral(f):
+    import functools
+
+    def call(ctx, *args, **kwargs):
+        return f(ctx, *args, **kwargs)
+
+    return functools.update_wrapper(call, f)
 
 
 def _files_prefix():
@@ -472,7 +494,13 @@ class Executor:
             tkw = {}
             if (self.ctx_params.get(cid) or {}).get("__override_name__"):
                 tkw["override_name"] = func.replace(":", "_") + "_renamed"
-            fn = lambda: ctx.trace(get_func(fa, func), *decode_sig(sig), **tkw)  # noqa: E731
+            f0 = get_func(fa, func)
+            if int(hashlib.sha256(rid.encode()).hexdigest(), 16) % 2 == 0:
+                # a short-lived callable (as a bound method, a closure or a lambda would be): same definition, same
+                # signature, dies right after the trace, so its address is free for the next one
+                f0 = _ephemeral(f0)
+                self.bump(self.stats, "traced_through_a_short_lived_callable")
+            fn = lambda: ctx.trace(f0, *decode_sig(sig), **tkw)  # noqa: E731
             self.guarded(req, "traced", fn, fault)
             if req["stage"] == "traced":
                 self.ctx_hist[cid].append(req_key(req))
@@ -485,12 +513,21 @@ class Executor:
         g = req["g"]
         pipeline = (req.get("params") or {}).get("__pipeline__")
         if op == "expand":
-            if req["stage"] != "traced":
+            if req["stage"] not in ("traced", "printed_raw"):
                 return
+            if req["stage"] == "printed_raw":
+                req["raw_first"] = True
+                self.bump(self.probes, "printed_before_and_after_rewriting")
             if len(a) > 2 and a[2] == "top-down":
                 self.bump(self.probes, "rewrite_with_deep_first_false")
                 req["topdown"] = True
+                req["topdown_expand"] = True
                 self.guarded(req, "expanded", lambda: g.rewrite(tm, deep_first=False), fault)
+            elif pipeline == "user":
+                from .universe import user_modifier
+
+                # judged absolutely (not against a solo baseline): the modifier introduces no constants of other types
+                self.guarded(req, "expanded", lambda: g.rewrite(user_modifier, deep_first=False), fault)
             elif pipeline == "legacy":
                 # what results/update.py calls: the deprecated aliases (they go through the warn-once cache)
                 self.guarded(req, "expanded", lambda: g.implement_missing(tm), fault)
@@ -503,11 +540,13 @@ class Executor:
             if req["stage"] != "expanded":
                 return
             if len(a) > 2 and a[2] == "top-down":
+                req["topdown"] = True
+                req["topdown_simplify"] = True
                 self.guarded(req, "simplified", lambda: g.rewrite(fa.rewrite, deep_first=False), fault)
             elif pipeline == "legacy":
                 self.guarded(req, "simplified", lambda: g.simplify(), fault)
-            elif pipeline == "combined":
-                req["stage"] = "simplified"  # already done by the combined call
+            elif pipeline in ("combined", "user"):
+                req["stage"] = "simplified"  # already done by the combined call / not part of the user pipeline
             else:
                 self.guarded(req, "simplified", lambda: g.rewrite(fa.rewrite), fault)
         elif op == "print":
